@@ -961,6 +961,84 @@ def sd_generic():
 # ---------------------------------------------------------------------------
 
 
+# ---------------------------------------------------------------------------
+# assembled 4D Riemann / Weyl tensors on spatially homogeneous data: every
+# finite difference vanishes identically, so the algebraic symmetries must
+# hold to round-off (on inhomogeneous data they only hold to truncation
+# error: that is checked at convergence level by C04 / C10)
+
+
+@st.composite
+def homog_case(draw):
+    fl = lambda lo, hi: st.floats(lo, hi, allow_nan=False, width=64)  # noqa
+    L = [[draw(fl(0.6, 1.6)) if i == j else (draw(fl(-0.6, 0.6)) if j < i
+                                            else 0.0) for j in range(3)]
+         for i in range(3)]
+    return dict(L=L, alpha=draw(fl(0.5, 2.0)),
+                beta=[draw(fl(-0.8, 0.8)) for _ in range(3)],
+                K=[draw(fl(-1, 1)) for _ in range(6)],
+                T=[draw(fl(-1, 1)) for _ in range(10)],
+                Lambda=draw(st.sampled_from([0.0, 0.7, -0.4])),
+                vacuum=draw(st.sampled_from([False, False, True])),
+                supplyT=draw(st.booleans()),
+                order=draw(st.sampled_from([2, 4])))
+
+
+def test_homog(case, note):
+    from harness.aurelside import make_fd
+    fd = make_fd([5, 6, 5], [0.0, 0.0, 0.0], [0.5, 0.25, 0.5],
+                 case["order"], "periodic")
+    one = np.ones(fd.x.shape)
+    Lm = np.array(case["L"])
+    gam = Lm @ Lm.T
+    data = dict(alpha=case["alpha"] * one)
+    for i, c in enumerate("xyz"):
+        data["beta" + c] = case["beta"][i] * one
+    idx = [(0, 0, "xx"), (0, 1, "xy"), (0, 2, "xz"), (1, 1, "yy"),
+           (1, 2, "yz"), (2, 2, "zz")]
+    for n, (i, j, sfx) in enumerate(idx):
+        data["g" + sfx] = gam[i, j] * one
+        data["k" + sfx] = case["K"][n] * one
+    vac = bool(case["vacuum"])
+    if case["supplyT"] and not vac:
+        T4 = np.zeros((4, 4))
+        it = iter(case["T"])
+        for a in range(4):
+            for b in range(a, 4):
+                T4[a, b] = T4[b, a] = next(it)
+        data["Tdown4"] = T4.reshape(4, 4, 1, 1, 1) * one
+    note.nt(any(abs(b) > 0.1 for b in case["beta"]) and not vac)
+    note.cls(f"Lambda={case['Lambda']}", f"vac={vac}",
+             "T-supplied" if "Tdown4" in data else "T-default")
+
+    def symdefects(C, name, eps):
+        sc = max(float(np.max(np.abs(C))), 1e-3)
+        for nm, D in (
+                ("antisym12", C + np.einsum('abcd...->bacd...', C)),
+                ("antisym34", C + np.einsum('abcd...->abdc...', C)),
+                ("pairsym", C - np.einsum('abcd...->cdab...', C)),
+                ("cyclic", C + np.einsum('abcd...->acdb...', C)
+                 + np.einsum('abcd...->adbc...', C))):
+            e = float(np.max(np.abs(D)))
+            if e > eps * sc:
+                note.fail(f"{name}:{nm}", dict(err=e, scale=sc))
+    relA = make_rel(fd, {k: v.copy() for k, v in data.items()},
+                    Lambda=case["Lambda"], vacuum=vac)
+    R = relA["st_Riemann_down4"]
+    symdefects(R, "st_Riemann_down4", 1e-11)
+    Wr = relA["st_Weyl_down4"]            # Riemann-based branch
+    symdefects(Wr, "st_Weyl_down4:riemann-branch", 1e-11)
+    relB = make_rel(fd, {k: v.copy() for k, v in data.items()},
+                    Lambda=case["Lambda"], vacuum=vac)
+    We = relB["st_Weyl_down4"]            # E/B branch
+    symdefects(We, "st_Weyl_down4:eb-branch", 1e-11)
+    tr = np.einsum('ac...,abcd...->bd...', relB["gup4"], We)
+    sc = max(float(np.max(np.abs(We))), 1e-3)
+    if float(np.max(np.abs(tr))) > 1e-10 * sc * 10:
+        note.fail("st_Weyl_down4:eb-branch:tracefree",
+                  dict(err=float(np.max(np.abs(tr))), scale=sc))
+
+
 def subchecks(tier):
     q = tier == "quick"
     g3 = [dict(P.GENERIC_GEO, aslist=False), dict(P.GENERIC_GEO2, aslist=True)]
@@ -993,6 +1071,8 @@ def subchecks(tier):
             generic=gh, shards=8 if q else 16),
         Sub("riemann", riemann_case(), test_riemann, 240 if q else 4000,
             generic=gr, shards=8 if q else 16),
+        Sub("riemann_weyl_homogeneous", homog_case(), test_homog,
+            120 if q else 3000, shards=8 if q else 16),
         Sub("safe_division", sd_case(), test_safe_division,
             2400 if q else 40000, generic=sd_generic(),
             shards=8 if q else 16),
